@@ -428,9 +428,12 @@ class Interp:
         if not isinstance(v, VBool): raise Undecidable('condition is not Boolean: %r' % (v,), loc)
         t = v.t
         if t[0] == 'c': return t[1]
+        neg = False
+        while t[0] == 'not':
+            t = t[1]; neg = not neg
         r = self.W.decide(('bool', t), [True, False])
         self.W.facts.append(lambda b, t=t, r=r: t if r else Not(t))
-        return r
+        return (not r) if neg else r
 
     # ---------- bdd structural equality ----------
     def bdd_eq(self, x, y):
